@@ -37,11 +37,12 @@ has_demo = os.path.exists(demo)
 if has_demo:
     os.makedirs('%s/%s/tests' % (wt, crate), exist_ok=True)
     shutil.copy(demo, '%s/%s/tests/seed_demo.rs' % (wt, crate))
-    r = sh('cargo test -p %s --test seed_demo --offline 2>&1' % crate)
+    rel = ' --release' if '--release' in sys.argv else ''
+    r = sh('cargo test -p %s --test seed_demo --offline%s 2>&1' % (crate, rel))
     p2, f2 = counts(r.stdout)
     meta['demo_with_change'] = {'passed': p2, 'failed': f2, 'exit': r.returncode, 'tail': r.stdout[-600:]}
     sh('git apply -R %s' % diff)
-    r = sh('cargo test -p %s --test seed_demo --offline 2>&1' % crate)
+    r = sh('cargo test -p %s --test seed_demo --offline%s 2>&1' % (crate, rel))
     p3, f3 = counts(r.stdout)
     meta['demo_without_change'] = {'passed': p3, 'failed': f3, 'exit': r.returncode}
 clean()
@@ -58,7 +59,7 @@ if has_demo:
 if os.path.exists(notes):
     shutil.copy(notes, out + '/notes.md')
 meta['what_i_ran'] = ['git apply patch.diff (scratch worktree)', 'cargo test --workspace --no-fail-fast --offline  (existing suite, change applied)',
-                      'cargo test -p %s --test seed_demo --offline  (demo as %s/tests/seed_demo.rs, change applied: must fail)' % (crate, crate),
+                      'cargo test -p %s --test seed_demo --offline%s  (demo as %s/tests/seed_demo.rs, change applied: must fail)' % (crate, ' --release' if '--release' in sys.argv else '', crate),
                       'git apply -R patch.diff; same demo again (must pass)']
 json.dump(meta, open(out + '/meta.json', 'w'), indent=1)
 print(json.dumps({k2: v for k2, v in meta.items() if k2 != 'what_i_ran'}, indent=1)[:1500])
